@@ -36,6 +36,7 @@ type Container struct {
 
 // Behaviour of run-and-wait / copy calls, set by drivers.
 type Behaviour struct {
+	ExecErr, CodeErr            bool
 	LogsErr, AttachErr, WaitErr bool
 	ExitCode                    int64
 	Output                      string
@@ -313,6 +314,58 @@ func (f *fakeEngine) VirtualizationWait(ctx context.Context, id, _ string) (r *e
 		}
 		c.Running = false
 		r = &enginetypes.VirtualizationWaitResult{Code: f.es.B.ExitCode}
+		return nil
+	})
+	return
+}
+
+// VirtualizationCopyFrom: every path has the content "content-of-<path>", except paths below /missing
+func (f *fakeEngine) VirtualizationCopyFrom(ctx context.Context, id, path string) (content []byte, uid, gid int, mode int64, err error) {
+	err = f.do(ctx, "CopyFrom", Event{"id": id, "path": path}, func() error {
+		f.es.mu.Lock()
+		defer f.es.mu.Unlock()
+		if _, err := f.find(id); err != nil {
+			return err
+		}
+		if len(path) >= 8 && path[:8] == "/missing" {
+			return fmt.Errorf("no such file: %s", path)
+		}
+		content, uid, gid, mode = []byte("content-of-"+path), 1000, 1000, 0o644
+		return nil
+	})
+	return
+}
+
+func (f *fakeEngine) Execute(ctx context.Context, id string, _ *enginetypes.ExecConfig) (execID string, stdout, stderr io.ReadCloser, stdin io.WriteCloser, err error) {
+	var out string
+	err = f.do(ctx, "Execute", Event{"id": id}, func() error {
+		f.es.mu.Lock()
+		defer f.es.mu.Unlock()
+		out = f.es.B.Output
+		if _, err := f.find(id); err != nil {
+			return err
+		}
+		if f.es.B.ExecErr {
+			return fmt.Errorf("exec refused")
+		}
+		return nil
+	})
+	if err != nil {
+		return "", nil, nil, nil, err
+	}
+	return "exec-" + id[:8], io.NopCloser(bytes.NewBufferString(out)), io.NopCloser(bytes.NewBufferString("")), nopWC{io.Discard}, nil
+}
+
+func (f *fakeEngine) ExecResize(context.Context, string, uint, uint) error { return nil }
+
+func (f *fakeEngine) ExecExitCode(ctx context.Context, id, _ string) (code int, err error) {
+	err = f.do(ctx, "ExecExitCode", Event{"id": id}, func() error {
+		f.es.mu.Lock()
+		defer f.es.mu.Unlock()
+		if f.es.B.CodeErr {
+			return fmt.Errorf("exit code unavailable")
+		}
+		code = int(f.es.B.ExitCode)
 		return nil
 	})
 	return
